@@ -35,6 +35,15 @@ CLAIMED = {
             "normal form; every sent row is evaluated by TLC at the instance.",
             "TLC 1.8; cvxpy+CLARABEL tolerance; numpy PSD projection and eigvalsh as sensors.",
             "6.2"),
+    "C03": ("TLC model checking of spec/Members.tla (586 rational member functions / operators validated against the class "
+            "definitions, near-miss non-members rejected) + replay of TLC-enumerated declaration histories on the 24 real "
+            "classes + TLC exact evaluation of every generated constraint and class LMI at every member (MembersTrace.tla)",
+            "The oracle is the definition of each class, not the library's formula: TLC proves membership on a grid, then "
+            "evaluates in exact rationals every class constraint / LMI the library generated at every member, grid "
+            "assignment and enumerated subgradient (stationary points, fixed points, repeated evaluations, block steps).",
+            "TLC 1.8; rational members of dimension <= 2 on a small grid; role assignment from the public API; RsiEb read as "
+            "'w.r.t. every stationary point stationary_point() can return'.",
+            "6.3"),
     "C04": ("TLC model checking of spec/ClassHist.tla (all declaration histories, order-independence of the documented set) "
             "+ replay on the 24 real classes + TLC trace validation against spec/Classes.tla (documented conditions)",
             "TLC enumerates every declaration history (<=3 quick, <=4 thorough) of each of the 24 classes at 2-3 parameter "
@@ -49,6 +58,14 @@ CLAIMED = {
             "elements) and compared row by row, sense by sense, by TLC with the normal forms read from the DSL objects.",
             "TLC 1.8; cvxpy expression evaluation used for probing; MOSEK-side encoding is covered by C11 on a stand-in.",
             "6.5"),
+    "C08": ("TLC model checking of spec/Steps.tla (documented post-conditions of the 8 primitive steps, all options) + replay "
+            "on the real steps + TLC trace validation of returned tuples, samples, owners and side constraints up to a "
+            "permutation of fresh leaves (StepsTrace.tla) + exact rational instantiation with the real operation (StepsReal.tla)",
+            "TLC enumerates all 1- and 2-call programs (sampled 3-call in thorough) over the 8 steps, options, leaf/composite "
+            "functions and argument shapes; each is replayed on the real code and TLC decides that nothing is missing and "
+            "nothing extra; single-call recordings are instantiated with the real operation on quadratic, |x| and box members.",
+            "TLC 1.8; fresh leaves matched up to permutation only; members of dimension <= 2; dyadic parameters.",
+            "6.8"),
     "C09": ("TLC model checking of spec/Runs.tla (members validated against the class definitions; exact rational execution of "
             "the method) on programs extracted from the real examples' object graphs + TLC judgement metric(run) <= tau",
             "Real members of every class are run exactly, in rationals, through the program extracted from each real worked "
